@@ -264,6 +264,12 @@ class SmiV2Lexer(AbstractLexer):
             lineno=t.lineno)
         # t.lexer.skip(1)
 
+    # exclusive states do not inherit the error rule (e.g. MACRO without END)
+    def t_macro_choice_exports_comment_error(self, t):
+        raise error.PySmiLexerError(
+            "Illegal character '%s', %s characters left unparsed at this stage" % (t.value[0], len(t.value) - 1),
+            lineno=t.lineno)
+
 
 class SupportSmiV1Keywords(object):
     @staticmethod
